@@ -162,7 +162,7 @@ Qed.
 Theorem write_stream_roundtrip es aw bw data :
   Forall (fun e => match xfields e with Some (_, x, y) => x < 2 ^ 64 /\ y < 2 ^ 64 | None => True end) es ->
   write_stream es (lenN es) = Ok (aw, bw, data) ->
-  read_section 0 (lenN es) 1 aw bw data = Ok ((0, es), []) /\ aw <= 8 /\ bw <= 8.
+  read_section 0 (lenN es) 1 aw bw data = Ok ((0, es), []) /\ aw <= 8 /\ bw <= 8 /\ lenN data = lenN es * (1 + aw + bw).
 Proof.
   intros Hu. unfold write_stream.
   destruct (max_field_widths es) as [ma mb] eqn:Em.
@@ -191,7 +191,7 @@ Proof.
     destruct (xfields e) as [[[ty x] y]|]; [|intros; exact I]. intros [H1 H2]. split; eapply N.le_lt_trans; eassumption. }
   destruct (rows_roundtrip (byte_len ma) (byte_len mb) es La Lb data [] Hfits Ew) as [Hr Hl].
   rewrite app_nil_r in Hr.
-  split; [|split; assumption].
+  split; [|split; [assumption|split; [assumption|exact Hl]]].
   unfold read_section. fold (lenN es). rewrite Hl.
   rewrite N.ltb_irrefl. unfold lenN. rewrite Nat2N.id. rewrite Hr. reflexivity.
 Qed.
